@@ -834,3 +834,88 @@ S('global-restorer-helper', ['C02', 'C06', 'C13', 'C15', 'C18', 'C08'], [
   (RESTORER, "        self.write_fs.move(trashed_file.original_file, trashed_file.original_location)\n        self.write_fs.remove_file(trashed_file.info_file)",
    "        self._bring_back(trashed_file)\n\n    def _bring_back(self, entry):\n        source, target = entry.original_file, entry.original_location\n        self.write_fs.move(source, target)\n        info = entry.info_file\n        self.write_fs.remove_file(info)")],
   'restore effects extracted into a helper with locals')
+
+# ------------------------------------------------------------------ rules added after the
+# independent seeding round (own formulations of the mechanisms that were missed)
+PORIG = 'trashcli/parse_trashinfo/parse_original_location.py'
+F('x-move-copy-function', {'C02': ['R02.2']}, [(FS,
+  "        return shutil.move(path, str(dest))", "        return shutil.move(path, str(dest), copy_function=shutil.copyfile)")],
+  'cross-device moves copy content only')
+F('x-reader-strips-path', {'C02': ['R02.2'], 'C03': ['R03.1'], 'C20': ['R20.2']}, [(PORIG,
+  "    return os.path.join(volume_path, path)", "    return os.path.join(volume_path, path.strip())")],
+  'restore strips blanks from the decoded Path')
+F('x-writer-replace', {'C03': ['R03.5']}, [(ORIGLOC,
+  "                parent = parent[len(volume_top_dir + os.path.sep):]",
+  "                parent = parent.replace(volume_top_dir + os.path.sep, '', 1) if False else parent.replace(volume_top_dir + os.path.sep, '')")],
+  'relative path computed with str.replace')
+F('x-writer-bare-prefix', {'C03': ['R03.5']}, [(ORIGLOC,
+  "            if (parent == volume_top_dir) or parent.startswith(\n                    volume_top_dir + os.path.sep):",
+  "            if parent.startswith(volume_top_dir):")],
+  'volume prefix recognised without a component boundary')
+F('x-quote-bytes', {'C03': ['R03.1']}, [(FMT, "return url_quote(original_location, '/')",
+  "return url_quote(original_location.encode('utf-8', 'surrogateescape'), '/')")],
+  'raw bytes quoted: readers cannot invert names that are not UTF-8')
+F('x-steal-reservation', {'C04': ['R04.6']}, [(FS,
+  """        file_handle = self.open_for_write_in_exclusive_and_create_mode(path)
+        try:
+            try:""",
+  """        try:
+            file_handle = self.open_for_write_in_exclusive_and_create_mode(path)
+            try:""")],
+  'the exclusive create sits inside the try whose handler unlinks the file')
+F('x-implicit-trash-dir', {'C07': ['R07.2']}, [(CREATOR,
+  "            self.dir_maker.mkdir_p(candidate.trash_dir_path, 0o700)\n", "")],
+  'trash directory only created implicitly as a parent')
+F('x-scanner-skips-alt', {'C09': ['R09.5']}, [(SCANNER,
+  "                if result == top_trash_dir_valid:\n                    yield trash_dir_found, TrashDir(top_trash_dir_path, volume)\n",
+  "                if result == top_trash_dir_valid:\n                    yield trash_dir_found, TrashDir(top_trash_dir_path, volume)\n                    continue\n")],
+  '.Trash-$uid not scanned where .Trash/$uid is valid')
+F('x-filter-memo', {'C12': ['R12.4']}, [(FILTER,
+  "    def matches(self, original_location):\n        basename = os.path.basename(original_location)\n",
+  "    def matches(self, original_location):\n        basename = os.path.basename(original_location)\n        self.last = getattr(self, 'last', None) or basename\n")],
+  'matcher keeps state across entries')
+F('x-rm-payload-exists', {'C12': ['R12.5'], 'C15': ['R15.4']}, [(FS,
+  "        if os.path.lexists(path): self.remove_file2(path)", "        if os.path.exists(path): self.remove_file2(path)")],
+  'payload existence test follows links')
+F('x-range-middle-ignored', {'C13': ['R13.5']}, [(RASK,
+  "            first, last = index.split(\"-\", 2)", "            parts = index.split(\"-\")\n            first, last = parts[0], parts[len(parts) - 1] if False else parts[-1]")],
+  'only first and last piece of a range are examined')
+F('x-exit-any', {'C16': ['R16.1']}, [('trashcli/put/core/trash_all_result.py',
+  "        return len(self.failed_paths) > 0", "        return any(self.failed_paths)")],
+  'exit status from the truthiness of the failed names')
+F('x-put-cache-dict', {'C16': ['R16.4']}, [(FILE_TRASHER,
+  "        self.volume_of_parent = VolumeOfParent(fs)\n", "        self.volume_of_parent = VolumeOfParent(fs)\n        self._volumes = {}\n"),
+  (FILE_TRASHER, "        volume = self._figure_out_volume(path, context.forced_volume)\n",
+   "        volume = self._figure_out_volume(path, context.forced_volume)\n        self._volumes[path] = volume\n")],
+  'per-run dictionary written for every argument')
+F('x-delete-dest-on-failure', {'C17': ['R17.5'], 'C01': ['R01.6']}, [(REAL_FS,
+  "            fs.move(path, dest)", "            try:\n                fs.move(path, dest)\n            except OSError:\n                fs.remove_file(dest)\n                raise")],
+  'destination deleted when the cross-device fallback fails')
+F('x-put-copies-links', {'C18': ['R18.6']}, [(REAL_FS,
+  "            fs.move(path, dest)", "            import shutil\n            shutil.copy2(path, dest)\n            fs.remove_file(path)")],
+  'hand-rolled cross-device copy')
+F('x-aware-dates', {'C19': ['R19.2'], 'C03': ['R03.3']}, [(PINFO,
+  """                try:
+                    date = datetime.datetime.strptime(
+                        line, "DeletionDate=%Y-%m-%dT%H:%M:%S")
+                except ValueError:
+                    self.found_invalid_date()""",
+  """                try:
+                    try:
+                        date = datetime.datetime.strptime(
+                            line, "DeletionDate=%Y-%m-%dT%H:%M:%S")
+                    except ValueError:
+                        date = datetime.datetime.strptime(
+                            line, "DeletionDate=%Y-%m-%dT%H:%M:%S%z")
+                except ValueError:
+                    self.found_invalid_date()""")],
+  'offset-aware dates accepted next to naive ones')
+F('x-restore-binary-read', {'C20': ['R20.4']}, [('trashcli/restore/file_system.py',
+  "class RealFileReader(RealContentsOf, FileReader):\n    pass",
+  "class RealFileReader(FileReader):\n    def contents_of(self, path):\n        with open(path, 'rb') as f:\n            return f.read().decode('utf-8')")],
+  'restore reads .trashinfo in binary mode')
+F('x-list-own-collector', {'C20': ['R20.1']}, [('trashcli/parse_trashinfo/maybe_parse_deletion_date.py',
+  "    result = Basket(unknown_date)\n", "    class Last(Basket):\n        def collect(self, value):\n            self.collected = value\n    result = Last(unknown_date)\n")],
+  'list keeps the date through its own collector class')
+F('x-unquote-strict', {'C19': ['R19.1']}, [(PPATH, "unquote(line[len('Path='):])", "unquote(line[len('Path='):], errors='strict')")],
+  'strict decoding error is not a ParseError: list aborts')
